@@ -16,7 +16,7 @@ import time
 from harness import core
 
 PROP = 'C04'
-PROOFS = ['theories/Ctrl/Proofs.v']
+PROOFS = ['theories/Ctrl/Proofs.v', 'theories/Ctrl/RemoteLive.v']
 HEADER = 'From PW Require Import Ctrl.Model Ctrl.Run.\n'
 CLASSES = ['Coop', 'Swallows', 'BlockedC', 'GilHeld', 'Stopped']
 THREAD_KINDS = ('KThread', 'KPersistentThread')
@@ -392,7 +392,7 @@ def main(tier, seed, replay=None):
                        'wall-clock duration = sum of the recorded blocking calls + non-blocking steps',
                        'ThreadWorker.terminate(force=True) sends SIGTERM to the whole process and is not exercised']
     res.trusted.append('Ctrl/Model.v: interpreter of the regenerated instruction lists (Gen/Ctrl.v), hand-written is_alive / persistent wait+close / reaction table of the child classes; scripted child of harness/props/c04.py')
-    core.prove(res, PROP, ['Ctrl'], PROOFS, run_files=['theories/Ctrl/Run.v'])
+    core.prove(res, PROP, ['Ctrl', 'RemoteLive'], PROOFS, run_files=['theories/Ctrl/Run.v'])
     sys.path.insert(0, core.REPO)
     terms, keep = [], []
     maxlen = 3 if tier == 'quick' else 4
